@@ -208,7 +208,9 @@ R_<TG_, TA_>::initialEnter() noexcept {
 
 			if (cancelledByEntryGuards(currentTransition,
 									   pendingTransition))
-				FFSM2_BREAK();
+				// vetoed: fall back to the last accepted redirect, or to the initial state
+				_core.registry.requested = currentTransition ?
+					currentTransition.destination : StateID{0};
 			else
 				currentTransition = pendingTransition;
 
@@ -297,7 +299,8 @@ R_<TG_, TA_>::processTransitions(Transition& currentTransition) noexcept {
 
 			if (cancelledByGuards(currentTransition,
 								  pendingTransition))
-				;
+				// vetoed: fall back to the destination of the last accepted transition
+				_core.registry.requested = currentTransition.destination;
 			else
 				currentTransition = pendingTransition;
 
